@@ -115,6 +115,11 @@ func TestRun(t *testing.T) {
 		}
 	}
 
+	if family == "snap" || os.Getenv("VERIF_POLL") == "1" {
+		stop := make(chan struct{})
+		defer close(stop)
+		StartStateFileSampler(stop) // outside any bubble: samples the state file on the real clock (C12)
+	}
 	for i, p := range plans {
 		scn := ids[i]
 		if savePlans {
